@@ -174,6 +174,7 @@ func Encode(b *Bag) ([]byte, []Field) {
 	if per <= 0 {
 		per = 1 << 30
 	}
+	msgOff := make([]int, len(b.Msgs)) // offset of each message record inside its (uncompressed) chunk
 	emit := func(inner *encoder, from, to int, repeat bool) {
 		if repeat {
 			for _, ci := range seen {
@@ -191,6 +192,7 @@ func Encode(b *Bag) ([]byte, []Field) {
 				seen = append(seen, ci)
 			}
 			h, d := msgRecord(b.Msgs[i])
+			msgOff[i] = inner.buf.Len()
 			inner.record("message", h, d)
 		}
 	}
@@ -210,9 +212,11 @@ func Encode(b *Bag) ([]byte, []Field) {
 			}
 		}
 	}
+	indexPos := 0
 	if !b.Chunked {
 		emit(e, 0, len(b.Msgs), false)
 		trailing(e)
+		indexPos = e.buf.Len()
 	} else {
 		for from := 0; from < len(b.Msgs) || from == 0; from += per {
 			to := from + per
@@ -264,7 +268,7 @@ func Encode(b *Bag) ([]byte, []Field) {
 					if b.Msgs[i].Conn == c {
 						d = append(d, le32(b.Msgs[i].Secs)...)
 						d = append(d, le32(b.Msgs[i].NSecs)...)
-						d = append(d, le32(0)...)
+						d = append(d, le32(uint32(msgOff[i]))...)
 					}
 				}
 				e.record("index_data", header(kv("op", []byte{OpIndexData}), kv("ver", le32(1)), kv("conn", le32(c)), kv("count", le32(info.counts[c]))), d)
@@ -275,6 +279,7 @@ func Encode(b *Bag) ([]byte, []Field) {
 			}
 		}
 		// index section: connection records again, then chunk infos
+		indexPos = e.buf.Len()
 		for _, c := range b.Conns {
 			h, d := connRecord(c)
 			e.record("connection", h, d)
@@ -294,5 +299,13 @@ func Encode(b *Bag) ([]byte, []Field) {
 				kv("start_time", append(le32(uint32(info.start>>32)), le32(uint32(info.start))...)), kv("end_time", append(le32(uint32(info.end>>32)), le32(uint32(info.end))...)), kv("count", le32(uint32(len(conns))))), d)
 		}
 	}
-	return e.buf.Bytes(), e.fields
+	out := e.buf.Bytes()
+	// patch index_pos and chunk_count in the bag header (fixed-width values)
+	if i := bytes.Index(out[:200], []byte("index_pos=")); i >= 0 {
+		binary.LittleEndian.PutUint64(out[i+len("index_pos="):], uint64(indexPos))
+	}
+	if i := bytes.Index(out[:200], []byte("chunk_count=")); i >= 0 {
+		binary.LittleEndian.PutUint32(out[i+len("chunk_count="):], uint32(nChunks))
+	}
+	return out, e.fields
 }
